@@ -68,8 +68,19 @@ def main():
 
     corpus = path + ".corpus"
     os.makedirs(corpus, exist_ok=True)
-    argv = [sys.argv[0], f"-runs={runs}", f"-seed={runner.shard_seed(seed, mod.PROPERTY, shard['name']) % (2**31 - 1) + 1}",
-            f"-max_len={int(shard.get('max_len', 2048))}", "-print_final_stats=0", "-verbosity=0", corpus]
+    fseed = runner.shard_seed(seed, mod.PROPERTY, shard["name"]) % (2**31 - 1) + 1
+    max_len = int(shard.get("max_len", 2048))
+    # starting corpus: the empty corpus plus a few pseudo-random buffers long enough for the strategy to decode a whole case
+    # (structured strategies reject short buffers, libFuzzer grows inputs slowly); a pure function of the shard seed
+    import random
+
+    rnd = random.Random(fseed)
+    for i in range(int(shard.get("seeds", 24))):
+        n = rnd.choice([64, 256, 1024, max_len])
+        with open(os.path.join(corpus, f"seed{i:02d}"), "wb") as f:
+            f.write(rnd.randbytes(min(n, max_len)))
+    argv = [sys.argv[0], f"-runs={runs}", f"-seed={fseed}", f"-max_len={max_len}", "-len_control=0",
+            "-print_final_stats=0", "-verbosity=0", corpus]
     atheris.Setup(argv, one)
     flush()
     atheris.Fuzz()
